@@ -27,6 +27,10 @@ var entropyNames = []string{"NONE", "HUFFMAN", "FPAQ", "RANGE", "ANS0", "CM", "T
 var levelPresets = []string{"NONE&NONE", "LZX&NONE", "DNA+LZ&HUFFMAN", "TEXT+UTF+PACK+MM+LZX&HUFFMAN", "TEXT+UTF+EXE+PACK+MM+ROLZ&NONE",
 	"TEXT+UTF+BWT+RANK+ZRLT&ANS0", "TEXT+UTF+BWT+SRT+ZRLT&FPAQ", "LZP+TEXT+UTF+BWT+LZP&CM", "EXE+RLT+TEXT+UTF+DNA&TPAQ", "EXE+RLT+TEXT+UTF+DNA&TPAQX"}
 
+// chains whose stages consult the data type of the block (C04 groups on containers of files)
+var magicChains = []string{"ROLZ&NONE", "TEXT+UTF+PACK+MM+LZX&HUFFMAN", "TEXT+UTF+EXE+PACK+MM+ROLZ&NONE", "ROLZX&ANS0", "TEXT&NONE", "EXE+RLT+TEXT+UTF+DNA&HUFFMAN",
+	"MM+LZX&NONE", "PACK+UTF&ANS0"}
+
 func slowEntropy(e string) bool { return e == "CM" || e == "TPAQ" || e == "TPAQX" }
 
 type writerRun struct {
@@ -435,6 +439,8 @@ func cmdRecWriter(args []string) int {
 	switch *mode {
 	case "c04":
 		gens = enumC04(*n, *seed, *thorough)
+	case "c01m":
+		gens = enumC01m(*seed, *thorough)
 	case "c08":
 		gens = enumC08(*n, *seed, *thorough)
 	case "c17":
@@ -517,6 +523,18 @@ func enumC04(n int, seed int64, thorough bool) []func() []wcaseT {
 				base.W.Hint = []int64{-1, int64(base.Size)}[g%2]
 				data = gen.Make(base.Shape, base.Seed, base.Size)
 			}
+			if m := g - len(transformNames); m >= 0 && m < len(magicChains) {
+				// a container of files: every block starts with a file signature, chains whose stages consult the data type.
+				// The data type a block is given must not depend on which task encodes it or on what the other tasks have done.
+				p := strings.Split(magicChains[m], "&")
+				base.W.Transform, base.W.Entropy = p[0], p[1]
+				base.W.Block = []uint{4096, 16384, 1024}[m%3]
+				base.W.SkipBlocks = false
+				base.Shape = []string{"magictext", "magicmix"}[m%2]
+				base.Size = 13*int(base.W.Block) + 777 + 16*m
+				base.W.Hint = []int64{-1, int64(base.Size)}[m%2]
+				data = gen.Make(base.Shape, base.Seed, base.Size)
+			}
 			var out []wcaseT
 			jobsList := []uint{1, 2, 3, 4, 8, 64}
 			k := 0
@@ -541,6 +559,35 @@ func enumC04(n int, seed int64, thorough bool) []func() []wcaseT {
 			}
 			return out
 		})
+	}
+	return gens
+}
+
+// enumC01m: the matrix entropy codec x data shape with the block reaching the entropy codec untouched (transform NONE): every
+// codec meets every shape (in particular the non-stationary ones) at a size of several internal chunks
+func enumC01m(seed int64, thorough bool) []func() []wcaseT {
+	var gens []func() []wcaseT
+	for ei, en := range entropyNames {
+		for si, shape := range gen.Shapes {
+			ei, en, si, shape := ei, en, si, shape
+			gens = append(gens, func() []wcaseT {
+				g := ei*len(gen.Shapes) + si
+				run := &writerRun{Run: g, Mode: "c01m", Seed: seed*53 + int64(g), After: "close", Shape: shape}
+				B := []uint{65536, 32768, 1 << 20}[(ei+si)%3]
+				size := 2*65536 + 16384 + 1000 + 16*si
+				if slowEntropy(en) && !thorough {
+					size = 40000 + 16*si
+				}
+				run.Size = size
+				run.W = kz.Cfg{Transform: "NONE", Entropy: en, Block: B, Jobs: []uint{1, 2, 4}[(ei+si)%3], Ck: []uint{0, 32, 64}[si%3], Hint: -1}
+				run.RJobs = []uint{1, 3}[si%2]
+				run.Parts = partsMenu[(ei+si)%len(partsMenu)]
+				if len(run.Parts) > 0 && run.Parts[0] < 700 {
+					run.Parts = []int{run.Parts[0], 70001, 3}
+				}
+				return []wcaseT{{run, gen.Make(shape, run.Seed, size)}}
+			})
+		}
 	}
 	return gens
 }
